@@ -621,6 +621,29 @@ fn part_process() -> PartResult {
     r
 }
 
+/// (d) TLS on versus off for the same client scripts.
+fn part_tls() -> PartResult {
+    use crate::bfs::Act;
+    use crate::scn::{part, ChatScn};
+    let mut scn = ChatScn::new("c20-tls", crate::scn::Cfg::default(), vec![part(0, "alice", "alicia", "au"), part(1, "bob", "bobby", "bu")], 0);
+    scn.alphabet = vec!["JOIN #x", "PRIVMSG #x :hi there", "PRIVMSG {peer} :psst", "WHOIS {peer}", "NICK {alt}", "TOPIC #x :t", "PART #x", "QUIT"];
+    let mut pre = vec![];
+    for p in &scn.parts {
+        pre.push(Act::Connect(p.slot));
+        pre.push(Act::Send(p.slot, format!("NICK {}", p.nick)));
+        pre.push(Act::Send(p.slot, format!("USER {} 8 * :Real {}", p.user, p.user)));
+    }
+    let v = std::env::var("VERIF_DIR").unwrap_or_else(|_| "/verif".into());
+    let bin = format!("{}/target/bind-tls/release/simple-irc-server", v);
+    let (_, dir) = crate::props::bind_paths();
+    let cfg = scn.cfg.clone();
+    let mut r = crate::bind::run_tls_compare("bind:c20-tls", &scn, &cfg, &pre, 2, 400, &bin, &dir);
+    if r.machinery.is_none() && r.violations.is_empty() && r.extra["rpl_whoissecure_seen_over_tls"] != json!(true) {
+        r.machinery = Some("vacuous: no 671 seen over TLS, was the TLS transport really used?".into());
+    }
+    r
+}
+
 pub fn replay_fun(scenario: &str, input: &Value) -> Vec<Finding> {
     match scenario {
         "fun:c20-example" => example_findings().0,
@@ -636,6 +659,8 @@ pub fn replay_fun(scenario: &str, input: &Value) -> Vec<Finding> {
 pub fn plan(quick: bool) -> Plan {
     let mut plan = plan_base();
     if !quick {
+        plan.parts.push(Part::Custom("bind:c20-tls".into(), Box::new(part_tls)));
+        plan.rule.push_str("; (d, thorough) every history up to depth 2 of a two-user scenario (JOIN, PRIVMSG, WHOIS, NICK, TOPIC, PART, QUIT) over plain TCP against the binary started without [tls] and over TLS (rustls client trusting test_data/cert.crt) against the same binary started with [tls]: transcripts equal except RPL_WHOISSECURE");
         plan.parts.push(Part::Custom("fun:c20-process".into(), Box::new(part_process)));
         plan.rule.push_str("; (e, thorough) the production binary built without the cfg: '-g -P pw' prints a hash that verifies exactly pw; 6 invalid configurations/command lines make the process exit with an error without ever listening, 2 valid ones are served (001 with the effective name)");
     }
